@@ -1,9 +1,9 @@
 """Encoders: Python / NumPy numbers -> the integer-only JSON the TLA+ specs read.
 
 Only ints and strings are emitted (TLC ints are 32 bit; Json floats are unreliable).
- flt(x)  -> [m, e]  (x ~ m*2^e, 2^19<=|m|<2^20 or [0,0]); "nan", "+inf", "-inf"
+ flt(x)  -> [m, e]  (x ~ m*2^e, 2^19<=|m|<2^20 or [0,0]); nan/+inf/-inf -> [1,0]/[2,0]/[-2,0] (invalid Flt)
  zflt(z) -> [flt(re), flt(im)]
- rat(x)  -> [p, q] with q<=2^15 and |x-p/q| <= 1e-9*max(1,|x|), else "irr" (or "nan"...)
+ rat(x)  -> [p, q] with q<=2^15 and |x-p/q| <= 1e-9*max(1,|x|), else [0,0]; nan [0,-1], +-inf [+-1,0]
  crat(z) -> [rat(re), rat(im)]
  ranks(a)-> dense ranks (0 = smallest; ties share a rank)
  digest  -> hex digest of dtype, shape and bytes
@@ -18,12 +18,16 @@ P19 = 1 << 19
 P20 = 1 << 20
 
 
+NAN_F, PINF_F, NINF_F = [1, 0], [2, 0], [-2, 0]      # not valid Flt values: IsFlt rejects them
+IRR_R, NAN_R, PINF_R, NINF_R = [0, 0], [0, -1], [1, 0], [-1, 0]   # denominators <= 0: IsRat rejects them
+
+
 def flt(x):
     x = float(x)
     if math.isnan(x):
-        return 'nan'
+        return list(NAN_F)
     if math.isinf(x):
-        return '+inf' if x > 0 else '-inf'
+        return list(PINF_F) if x > 0 else list(NINF_F)
     if x == 0.0:
         return [0, 0]
     m, e = math.frexp(x)
@@ -42,8 +46,12 @@ def flt(x):
 
 
 def unflt(v):
-    if isinstance(v, str):
-        return {'nan': math.nan, '+inf': math.inf, '-inf': -math.inf}[v]
+    if v == NAN_F:
+        return math.nan
+    if v == PINF_F:
+        return math.inf
+    if v == NINF_F:
+        return -math.inf
     return math.ldexp(v[0], v[1])
 
 
@@ -55,13 +63,13 @@ def zflt(z):
 def rat(x, max_den=1 << 15, rel=1e-9):
     x = float(x)
     if math.isnan(x):
-        return 'nan'
+        return list(NAN_R)
     if math.isinf(x):
-        return '+inf' if x > 0 else '-inf'
+        return list(PINF_R) if x > 0 else list(NINF_R)
     fr = Fraction(x).limit_denominator(max_den)
     if abs(float(fr) - x) <= rel * max(1.0, abs(x)) and abs(fr.numerator) < (1 << 30):
         return [fr.numerator, fr.denominator]
-    return 'irr'
+    return list(IRR_R)
 
 
 def crat(z, **kw):
